@@ -3,7 +3,7 @@
    not empty and load_item with fuel g reads it back as the element's normal form.  By induction on g. *)
 From AP.Model Require Import Prelude Bytes Vocab Pred Url IriEq Nlv Json Text Equal Coll Dispatch Layout JsonTables JsonLeaf
      JsonEnc JsonTree JsonCheck JsonDec JsonNorm JsonRoundCheck.
-From AP.Proofs Require Import NlvP TextP C01NumP C01TimeP C01StrP C01TreeP C01ParseP C01TreeWfP C01FlatP C01ItemP C01FieldP.
+From AP.Proofs Require Import NlvP TextP C01NumP C01TimeP C01StrP C01TreeP C01ParseP C01TreeWfP C01FlatP C01ItemP C01FieldP AsIriP.
 Local Open Scope nat_scope.
 
 (* ------------------------------------------------------------------ small list facts *)
@@ -461,7 +461,7 @@ Section Round.
   Lemma load_str li raw u : url_classify (fj_unescape raw) = UValid u ->
     load_item_level jr_tables layout_of registry load_switch activity_types actor_types link_types li (Text.FStr raw)
     = Some (IIri false (fj_unescape raw)).
-  Proof. intros H. unfold load_item_level, as_string_iri. cbn [jget fj_get jstr as_iri]. rewrite H. reflexivity. Qed.
+  Proof. intros H. unfold load_item_level, as_string_iri. cbn [jget fj_get jstr]. rewrite (as_iri_of_plain raw u H). reflexivity. Qed.
 
   Lemma load_item_S f v : ld (S f) v =
     load_item_level jr_tables layout_of registry load_switch activity_types actor_types link_types (ld f) v.
